@@ -211,3 +211,15 @@ impl Property for P {
         0.2
     }
 }
+
+pub fn decode(data: &[u8]) -> Case {
+    let mut r = crate::fuzzdec::Reader::new(data);
+    let mode = r.u8();
+    let mut spec = crate::fuzzdec::optspec(&mut r, true, true);
+    spec.width %= 41;
+    let columns = 1 + r.pick(6);
+    let left = GAPS[r.pick(GAPS.len())].to_string();
+    let mid = GAPS[r.pick(GAPS.len())].to_string();
+    let right = GAPS[r.pick(GAPS.len())].to_string();
+    Case { text: crate::fuzzdec::text(mode, r.rest()), columns, spec, left, mid, right }
+}
